@@ -1373,7 +1373,7 @@ class Simulation:
             gfield = fields.Field(
                 grid=efield.grid,
                 data=-efield.smu0*gvec,  # -iwu: To get complete source field.
-                frequency=efield.frequency
+                frequency=efield._frequency
             )
 
             data = {
